@@ -57,7 +57,7 @@ def run(scripts):
         return None, None
     native = json.load(open(nout))
     eout = os.path.join(OUT, "engine.json")
-    r = subprocess.run([os.path.join(VERIF, "build", "symgo"), "-pkgs", "./zzcorpus", "-fn", "^ZZ_corpus_run$", "-corpus", cin, "-corpus-out", eout, "-budget", "3000000"],
+    r = subprocess.run([os.path.join(VERIF, "build", "symgo"), "-repo", REPO, "-harness", os.path.join(VERIF, "harness"), "-gen", os.path.join(VERIF, "out", "gen"), "-pkgs", "./zzcorpus", "-fn", "^ZZ_corpus_run$", "-corpus", cin, "-corpus-out", eout, "-budget", "3000000"],
                        cwd=VERIF, env=GOENV, stdout=subprocess.PIPE, stderr=subprocess.STDOUT, text=True)
     if not os.path.exists(eout):
         print(r.stdout[-3000:])
